@@ -57,6 +57,34 @@ type Zlisp struct {
 	// refuses the forms and builders that reach outside the
 	// process (include, sys, import), also after StandardSetup().
 	sandboxed bool
+
+	// nestDepth counts the evaluations and macro expansions in
+	// progress, one inside the other; see MaxNestDepth.
+	nestDepth int
+}
+
+// MaxNestDepth bounds how deep evaluations may nest: an instruction
+// that runs a builtin that calls back into the interpreter (eval, map,
+// a comparator, a macro at compile time), whose code does the same,
+// and so on. So do macro expansions whose result calls a macro again,
+// and files that include files. All of them nest on the Go stack, and
+// a Go stack that outgrows its limit is a fatal error that takes the
+// host process down; beyond MaxNestDepth the interpreter returns an
+// error instead.
+const MaxNestDepth = 10000
+
+// enterNest counts one more evaluation or expansion in progress, or
+// refuses when MaxNestDepth of them are; leaveNest undoes it.
+func (env *Zlisp) enterNest(what string) error {
+	if env.nestDepth >= MaxNestDepth {
+		return fmt.Errorf("%s nested more than %d deep", what, MaxNestDepth)
+	}
+	env.nestDepth++
+	return nil
+}
+
+func (env *Zlisp) leaveNest() {
+	env.nestDepth--
 }
 
 // allow clients to establish a callback to
@@ -202,6 +230,8 @@ func (env *Zlisp) Clone() *Zlisp {
 func (env *Zlisp) Duplicate() *Zlisp {
 	dupenv := new(Zlisp)
 	dupenv.sandboxed = env.sandboxed
+	// a duplicate runs on the Go stack of whoever made it
+	dupenv.nestDepth = env.nestDepth
 	dupenv.parser = env.parser
 	dupenv.baseTypeCtor = env.baseTypeCtor
 	dupenv.datastack = dupenv.NewStack(DataStackSize)
@@ -948,6 +978,11 @@ func (env *Zlisp) Apply(fun *SexpFunction, args []Sexp) (Sexp, error) {
 }
 
 func (env *Zlisp) Run() (Sexp, error) {
+	if err := env.enterNest("evaluation"); err != nil {
+		return SexpNull, err
+	}
+	defer env.leaveNest()
+
 	runState := env.captureControlState()
 
 	for env.pc != -1 && !env.ReachedEnd() {
